@@ -46,7 +46,8 @@ MIN = {'quick': {'distinct': 250,
                                  ('options firstid', 3),
                                  ('options gf-roundtrip', 8),
                                  ('options gf_terminals-alone', 3),
-                                 ('directory of gzip sources', 3)])},
+                                 ('directory of gzip sources', 3),
+                                 ('directory round trip in two steps', 5)])},
        'thorough': {'distinct': 5000, 'hooks': {'cli.transform': 15000}}}
 
 CARRY = {
@@ -205,8 +206,14 @@ def write_src(ctx, fmt, bank, rng, enc, gz, v4):
     data = text.encode(enc)
     path = ctx.path('.' + fmt + ('.gz' if gz else ''))
     if gz:
-        with gzip.open(path, 'wb') as f:
-            f.write(data)
+        if rng.random() < 0.5 and len(data) > 20:
+            cut = len(data) // 2
+            with io.open(path, 'wb') as f:
+                f.write(gzip.compress(data[:cut]))
+                f.write(gzip.compress(data[cut:]))
+        else:
+            with gzip.open(path, 'wb') as f:
+                f.write(data)
     else:
         with io.open(path, 'wb') as f:
             f.write(data)
@@ -427,6 +434,26 @@ def run_dir(ctx, case, rng):
     ctx.stratum('directory source')
     if gz:
         ctx.stratum('directory of gzip sources')
+    # second step: the files the tool just wrote (x.dest) as a directory source
+    if dfmt != 'terminals':
+        d2 = ctx.path('.dir2')
+        os.mkdir(d2)
+        for name in names:
+            os.rename(os.path.join(d, name + '.dest'),
+                      os.path.join(d2, name + '.dest'))
+        back = sfmt if not (sfmt == 'brackets' and False) else sfmt
+        rc, err = convert(ctx, d2, os.path.join(d2, 'ignored'), dfmt, back)
+        if rc != 0:
+            raise Fail('directory-mode-second-step-exit-status',
+                       common.tail(err, 300))
+        listing = sorted(os.listdir(d2))
+        want = sorted([n + '.dest' for n in names]
+                      + [n + '.dest.dest' for n in names])
+        if listing != want:
+            raise Fail('directory-mode-files', 'second step over the written '
+                       '.dest files: directory holds %r, expected %r'
+                       % (listing, want))
+        ctx.stratum('directory round trip in two steps')
 
 
 def run_opts(ctx, case, rng):
